@@ -130,7 +130,7 @@ func runC01(r *ev.Run) {
 
 	// --- U1: closed material classes -----------------------------------
 	classes := universe.ThreeMan()
-	extra := seedFour(r, 0, 2, 12)
+	extra := seedFour(r, 0, 1, 12)
 	classes = append(classes, parseClasses(extra)...)
 	r.Set("classes", classNames(classes))
 	newW := func() *c01Worker { return &c01Worker{ms: move.NewStore()} }
